@@ -2,9 +2,8 @@
 //!
 //! Ordering discipline. A node's actors hand messages to per-destination connection tasks, so the
 //! order in which frames of DIFFERENT connections reach the wire is not the order in which the
-//! node decided them. Orders are therefore only compared (a) within one connection, or between
-//! successive connections of the same sender object to the same destination (FIFO by
-//! construction), and (b) between "delivered to the node" and "written by the node", where
+//! node decided them. Orders are therefore only compared (a) within one connection, and
+//! (b) between "delivered to the node" and "written by the node", where
 //! using delivered-by-then can only make an oracle more permissive.
 use crate::ident::{self, Round};
 use crate::net::{Phase, TapEvent, TapKind, SVC_CONSENSUS, SVC_MEMPOOL, SVC_TX};
@@ -60,7 +59,9 @@ pub struct Ext {
     pub n: usize,
     qc_memo: HashMap<Digest, bool>,
     tc_memo: HashMap<Digest, bool>,
-    link_core: HashMap<(usize, usize), LinkCore>,
+    /// Keyed by connection: order is compared only among frames of one connection, which one
+    /// sender task wrote in the order it was handed them.
+    link_core: HashMap<usize, LinkCore>,
     // C03: round -> voted block, per node (wire votes and own signatures inside QCs).
     voted: Vec<HashMap<Round, Digest>>,
     // C09
@@ -579,7 +580,7 @@ fn consensus_written(o: &mut Observer, ev: &TapEvent, m: &ConsensusMessage) {
                     o.ext.w2_qc_committed_to = (qc_round, step);
                 }
             }
-            let lk = o.ext.link_core.entry((i, dst)).or_default();
+            let lk = o.ext.link_core.entry(ev.conn).or_default();
             let mut msgs: Vec<(&str, &str, String)> = Vec::new();
             if lk.any_vote && v.round <= lk.max_vote_round {
                 msgs.push(("C03", "vote-round-not-increasing", format!("node {} sent to {} a vote for round {} after a vote for round {}", i, dst, v.round, lk.max_vote_round)));
@@ -629,7 +630,7 @@ fn consensus_written(o: &mut Observer, ev: &TapEvent, m: &ConsensusMessage) {
                     o.ext.w2_qc_committed_to = (t.high_qc.round, step);
                 }
             }
-            let lk = o.ext.link_core.entry((i, dst)).or_default();
+            let lk = o.ext.link_core.entry(ev.conn).or_default();
             let mut msgs: Vec<(&str, &str, String)> = Vec::new();
             if t.round < lk.max_acting_round {
                 msgs.push(("C10", "acting-round-regressed", format!("node {} sent to {} a timeout for round {} after acting in round {}", i, dst, t.round, lk.max_acting_round)));
